@@ -316,12 +316,59 @@ def run(ctx):
 
     # ------------------------------------------------------------------ C06-delimited
     ctx.rule("C06-delimited", "tokens end only at delimiters: last event before a token exit is delimiter evidence")
-    delimited(ctx, fb, disp)
+    d_del = delimited_table(ctx, fb)
+    # (the path analysis below is the older, shape-bound formulation of the same rule: a fallback when the table cannot decide)
+    ctx.guarded("C06-delimited", d_del >= 9, lambda: delimited(ctx, fb, disp))
     consumption(ctx, fb)
     return EXPLANATION, NOT_DECIDED
 
 
 # =============================================================================================
+
+
+def delimited_table(ctx, fb):
+    """token x follower table (lexrun.py): a token of a class that is not self-delimiting, immediately followed by a character
+    that is not a delimiter, must not be split into that token and another one — it is one longer token or an error; followed by
+    a delimiter it is that token.  Returns the number of decided rows."""
+    from . import lexrun
+    classes = {"Integer": "12", "Real": "1.5", "Real-exponent": "1e5", "Real-dot": "1.", "Rational": "1/2", "Identifier": "ab",
+               "Peculiar-identifier": "+", "Boolean": "#t", "Character": "#\\a"}
+    kind_of = {"Real-exponent": "Real", "Real-dot": "Real", "Peculiar-identifier": "Identifier"}
+    nondelim = ["x", "7", "#", "'", ",", "`", ".", "+", "{", "\\"]
+    delim = [" ", "\t", "\n", "\r", "(", ")", "\"", ";", "|"]
+    tn = fb.find(LEX + "try_next")
+    decided = 0
+    for cls, txt in classes.items():
+        k = kind_of.get(cls, cls)
+        splits, stuck, wrong = [], 0, []
+        for fol in nondelim:
+            toks = lexrun.lex(fb, txt + fol + " ")
+            if toks and toks[-1][0] == "stuck":
+                stuck += 1
+                continue
+            kinds = [t[0] for t in toks]
+            if len(kinds) >= 2 and kinds[0] == k and toks[0][1] == lexrun.lex(fb, txt + " ")[0][1]:
+                splits.append(fol)
+        for fol in delim:
+            toks = lexrun.lex(fb, txt + fol + " ")
+            if toks and toks[-1][0] == "stuck":
+                stuck += 1
+                continue
+            if not toks or toks[0][0] != k:
+                wrong.append(fol)
+        if stuck:
+            ctx.undecided("C06-delimited", "%s/table" % cls, "%d follower rows could not be followed" % stuck, where_of(tn))
+            continue
+        decided += 1
+        ctx.inst("C06-delimited", "%s/followers" % cls, {"split_before": splits, "not_recognised_before_delimiter": wrong})
+        ctx.oblige(not splits and not wrong)
+        if splits:
+            ctx.report("C06-delimited", "%s/split" % cls, "a %s token immediately followed by one of %s is split into two tokens (e.g. %r reads as "
+                       "%s): the text is not rejected and not read as one token" % (cls, splits, txt + splits[0],
+                                                                                     [t[:2] for t in lexrun.lex(fb, txt + splits[0] + " ")]), where_of(tn))
+        if wrong:
+            ctx.report("C06-delimited", "%s/delimiter" % cls, "%r followed by the delimiter(s) %s is not read as a %s" % (txt, wrong, k), where_of(tn))
+    return decided
 
 
 def delimited(ctx, fb, disp):
